@@ -2598,7 +2598,7 @@ def m_collect(ex, m, args, callee):
     raise Unmodelled('collect into ' + target)
 
 
-@model(r'^<(.*) as Iterator>::(fold|sum|count|all|any|find|position|last|for_each|max|min|nth)$')
+@model(r'^<(.*) as Iterator>::(fold|sum|count|all|any|find|position|last|for_each|max|min|nth|max_by_key|min_by_key)$')
 def m_iter_consume(ex, m, args, callee):
     k = m.group(2)
     if k == 'fold':
@@ -2642,6 +2642,18 @@ def m_iter_consume(ex, m, args, callee):
             b = ex.call_value(args[1], [Ref(Cell(r.fields[0], 'tmp'))])
             if ex.branch(b, 'find'):
                 return r
+    if k in ('max_by_key', 'min_by_key'):
+        # std: the last element of maximal key / the first of minimal key; keys must come out concrete here
+        items = collect_items(ex, args[0])
+        best, bk = None, None
+        for item in items:
+            key = val(ex.call_value(args[1], [Ref(Cell(item, 'tmp'))]))
+            key = simp(key) if is_z3(key) else key
+            if not is_conc(key):
+                raise Unmodelled('Iterator::%s with a symbolic key' % k)
+            if best is None or (k == 'max_by_key' and key >= bk) or (k == 'min_by_key' and key < bk):
+                best, bk = item, key
+        return some(ex, best) if best is not None else none(ex)
     if k == 'position':
         it = args[0]
         idx = 0
